@@ -217,6 +217,10 @@ def random_password(rng):
 # ---------------------------------------------------------------------------------------------
 # cases
 # ---------------------------------------------------------------------------------------------
+def _load(rng):
+    return {"a": "Load", "lazy": rng.random() < 0.3}
+
+
 def _set(kind, pw, rng, k):
     return {"a": "Set", "kind": kind, "pw": pw, "others": others_for(pw, rng, k)}
 
@@ -237,9 +241,9 @@ def gen_cases(chk, replays):
                 steps.append({"a": "Legacy", "kind": kind, "v": "CC1A"})
             if j % 2 == 1:
                 steps.append({"a": "Legacy", "kind": KINDS[(j + 1) % 4], "v": "83AF"})
-            steps += [_set(kind, pw, rng, nother), {"a": "Save", "writer": writers[0]}, {"a": "Load"}]
+            steps += [_set(kind, pw, rng, nother), {"a": "Save", "writer": writers[0]}, _load(rng)]
             pw2 = pw if i % 3 else classes[(i + 5) % len(classes)][1]
-            steps += [_set(kind, pw2, rng, nother), {"a": "Save", "writer": writers[1]}, {"a": "Load"}]
+            steps += [_set(kind, pw2, rng, nother), {"a": "Save", "writer": writers[1]}, _load(rng)]
             cases.append({"base": "new", "steps": steps, "family": "class:" + cname})
     # B: behaviours enumerated by TLC (MC_PwdHash_replay.cfg), atoms p1/p2 bound to real passwords
     nontrivial = sorted((r for r in replays if any(s["a"] == "Set" for s in r)),
@@ -258,7 +262,7 @@ def gen_cases(chk, replays):
             elif s["a"] == "Save":
                 steps.append({"a": "Save", "writer": rng.choice(["std", "light"])})
             else:
-                steps.append({"a": "Load"})
+                steps.append(_load(rng))
         cases.append({"base": "new", "steps": steps, "family": "tlc-replay"})
     # C: random histories with random Unicode passwords
     for _ in range(1500 if thorough else 30):
@@ -278,20 +282,21 @@ def gen_cases(chk, replays):
                 steps.append({"a": "Save", "writer": rng.choice(["std", "light"])})
                 saved = set(isset)
             elif saved is not False:
-                steps.append({"a": "Load"})
+                steps.append(_load(rng))
                 isset = set(saved)
         if not any(s["a"] == "Set" for s in steps):
             steps += [_set(rng.choice(KINDS), random_password(rng), rng, nother),
-                      {"a": "Save", "writer": rng.choice(["std", "light"])}, {"a": "Load"}]
+                      {"a": "Save", "writer": rng.choice(["std", "light"])}, _load(rng)]
         cases.append({"base": base, "steps": steps, "family": "random"})
     # D: corpus files whose verifiers were written by Excel (password known)
     for base in ("sheet_lock", "book_lock"):
-        cases.append({"base": base, "steps": [{"a": "Save", "writer": "std"}, {"a": "Load"},
-                                              {"a": "Save", "writer": "light"}, {"a": "Load"}], "family": "corpus"})
+        cases.append({"base": base, "steps": [{"a": "Save", "writer": "std"}, {"a": "Load", "lazy": False},
+                                              {"a": "Save", "writer": "light"}, {"a": "Load", "lazy": True}],
+                      "family": "corpus"})
         for kind in KINDS:
             pw = rng.choice(classes)[1]
             cases.append({"base": base, "steps": [_set(kind, pw, rng, nother), {"a": "Save", "writer": "std"},
-                                                  {"a": "Load"}], "family": "corpus"})
+                                                  _load(rng)], "family": "corpus"})
     # E: the same calls in two separate processes: salts must differ across processes as well
     for kind in KINDS[1:]:
         cases.append({"base": "new", "procs": 2, "family": "two-processes",
